@@ -1,10 +1,18 @@
 """C05 Parallel and Map joins are order-independent, complete and concurrency-bounded."""
+from contracts import handlers as H, engine as E, joins as J
 
 
 def build(P):
     P.category = "other"
+    H.setup(P)
+    P.verify(E.SE + "StateEngine.acknowledge_event_list", J.acknowledge_event_list_contract(), tags=("C05",), timeout=30)
+    P.verify(E.NOTIFY + "get_start_index", J.get_start_index_contract(), tags=("C05",), timeout=30)
     P.native("join-schedules", "natives.c05:joins", kind="bounded", clause="C05:", timeout=900,
-             bound="Parallel with 2 and 3 task branches; Map over 0..3 items with MaxConcurrency in {absent, 0, 1, 2, n, n+1}; "
-                   "every schedule of event deliveries and task replies up to 5 choice points (7 at thorough) then FIFO, plus "
-                   "seeded random schedules; real StateEngine + real TaskDispatcher, fake broker")
-    P.explanation = "joins"
+             bound="Parallel with 2 and 3 task branches; Map over 0..4 items with MaxConcurrency in {absent, 0, 1, 2, n, n+1}; "
+                   "every schedule of event deliveries and task replies up to 5 choice points (7 at thorough) then FIFO, every reply "
+                   "order up to 5 choices, plus seeded random schedules; real StateEngine + real TaskDispatcher, fake broker")
+    P.explanation = ("Deductive: acknowledge_event_list (loop invariant: every held id of a completed join is released, list length "
+                     "kept), get_start_index without a Branch stack. The join itself (asl_state_collect_results, Map/Parallel "
+                     "delegates) is NOT under a discharged contract; order independence, completeness, exactly-once processing and the "
+                     "MaxConcurrency bound are checked by the bounded stand-in over enumerated schedules.")
+    P.not_decided = ["collect_results / Map_delegate / Parallel_delegate obligations (slot update, join-iff, batch partition): not discharged"]
